@@ -24,8 +24,7 @@ Structure: the branching functions get a *cases* theorem first (`closestPoints_c
 extracted tree computes, by named quantities and guards), the geometric statements are then proved from those by
 vector algebra (`Lemmas/C15Lemmas.lean`).  Bridging steps use `ring` / `ring_nf` / `linear_combination` (robust against
 reordered sums and products, hoisted temporaries, `a/b` spellings); only `tri_spec` matches the guard expressions of the
-50-path triangle tree syntactically.  `Line3_distanceToLine` is the full-strength statement of a function the current
-tree gets wrong (see its doc comment); it is expected to be reported by the check until the code is repaired.
+50-path triangle tree syntactically.  `Line3_distanceToLine` is the full-strength statement of the function that /repo commit 0d82c71 repaired.
 -/
 set_option linter.unusedSectionVars false
 set_option linter.unusedSimpArgs false
@@ -265,46 +264,33 @@ theorem LineAlgo_closestPoints_no_div_by_zero (tmax : α) (l1 l2 : Line3 α) :
 
 /-! ## Line3::distanceTo(Line3) -/
 
-/-- `Line3::distanceTo(Line3)` with whatever parameters the current extraction gives it (the present body uses no
-`length()`, a repaired one does): the statement below elaborates against either -/
-def Line3_distanceToLine_impl (tmin : α) (sqrt : α → α) (l1 l2 : Line3 α) : α := by
-  first
-    | exact Gen.Line3.distanceToLine tmin sqrt l1 l2
-    | exact Gen.Line3.distanceToLine sqrt l1 l2
-    | exact Gen.Line3.distanceToLine l1 l2
-
-/-- `Line3::distanceTo(Line3)`, FULL STRENGTH (unit directions): the result is the distance between the lines, i.e. it is
-non-negative, no pair of points of the two lines is closer, and some pair realises it (the common perpendicular; for
-parallel lines the distance of `l2.pos` to `l1`); for non-parallel lines it equals
-`|(p2 − p1)·(d1×d2)| / |d1×d2|`.
-
-On the tree this file was written against the statement is FALSE (DESIGN.md §7 item 2: the cross product is not
-normalised, so the code returns `|(p2 − p1)·(d1×d2)|`, which is the distance times `|d1×d2| = sin(angle)`, and `0` for
-parallel lines); the proof below is the one that closes once the code divides by `|d1×d2|` and falls back to the
-point–line distance for parallel lines.  What IS true of the current code is `Line3_distanceToLine_partial`. -/
+/-- `Line3::distanceTo(Line3)` (unit directions): the result is the distance between the lines, i.e. it is non-negative,
+no pair of points of the two lines is closer, and some pair realises it (the feet of the common perpendicular; for
+parallel lines the distance of `l2.pos` to `l1`); for non-parallel lines it equals `|(p2 − p1)·(d1×d2)| / |d1×d2|`.
+(Until /repo commit 0d82c71 the code omitted the division by `|d1×d2|` and returned 0 for parallel lines; this theorem
+was the check's reported violation `theorem:Line3_distanceToLine`.) -/
 theorem Line3_distanceToLine (tmin : α) (sqrt : α → α) (hlen : LenSpec (Gen.V3.length tmin sqrt)) (l1 l2 : Line3 α)
     (hu1 : dot l1.dir l1.dir = 1) (hu2 : dot l2.dir l2.dir = 1) :
-    0 ≤ Line3_distanceToLine_impl tmin sqrt l1 l2 ∧
-    (∀ s t, Line3_distanceToLine_impl tmin sqrt l1 l2 ^ 2 ≤ dist2 (lineAt l1 s) (lineAt l2 t)) ∧
-    (∃ s t, Line3_distanceToLine_impl tmin sqrt l1 l2 ^ 2 = dist2 (lineAt l1 s) (lineAt l2 t)) ∧
+    0 ≤ Gen.Line3.distanceToLine tmin sqrt l1 l2 ∧
+    (∀ s t, Gen.Line3.distanceToLine tmin sqrt l1 l2 ^ 2 ≤ dist2 (lineAt l1 s) (lineAt l2 t)) ∧
+    (∃ s t, Gen.Line3.distanceToLine tmin sqrt l1 l2 ^ 2 = dist2 (lineAt l1 s) (lineAt l2 t)) ∧
     (cross l1.dir l2.dir ≠ zero → ∀ Lc, 0 ≤ Lc → Lc ^ 2 = dot (cross l1.dir l2.dir) (cross l1.dir l2.dir) →
-      Line3_distanceToLine_impl tmin sqrt l1 l2 * Lc = |dot (sub l2.pos l1.pos) (cross l1.dir l2.dir)|) := by
+      Gen.Line3.distanceToLine tmin sqrt l1 l2 * Lc = |dot (sub l2.pos l1.pos) (cross l1.dir l2.dir)|) := by
   -- it is enough to exhibit feet of a common perpendicular whose squared distance is D²
-  suffices h : 0 ≤ Line3_distanceToLine_impl tmin sqrt l1 l2 ∧
+  suffices h : 0 ≤ Gen.Line3.distanceToLine tmin sqrt l1 l2 ∧
       (∃ s t, dot (sub (lineAt l1 s) (lineAt l2 t)) l1.dir = 0 ∧ dot (sub (lineAt l1 s) (lineAt l2 t)) l2.dir = 0 ∧
-        Line3_distanceToLine_impl tmin sqrt l1 l2 ^ 2 = dist2 (lineAt l1 s) (lineAt l2 t)) by
+        Gen.Line3.distanceToLine tmin sqrt l1 l2 ^ 2 = dist2 (lineAt l1 s) (lineAt l2 t)) by
     obtain ⟨h0, s, t, hp1, hp2, hD⟩ := h
     refine ⟨h0, fun s' t' => by rw [hD]; exact dist2_min_of_perp l1 l2 s t hp1 hp2 s' t', ⟨s, t, hD⟩, ?_⟩
     intro hnp Lc hLc0 hLc
     have hV := perp_both_sq (sub (lineAt l1 s) (lineAt l2 t)) l1.dir l2.dir hp1 hp2
     have hVn : dot (sub (lineAt l1 s) (lineAt l2 t)) (cross l1.dir l2.dir) = - dot (sub l2.pos l1.pos) (cross l1.dir l2.dir) := by
       simp only [dot, sub, lineAt, cross]; ring
-    have hsq : (Line3_distanceToLine_impl tmin sqrt l1 l2 * Lc) ^ 2 = |dot (sub l2.pos l1.pos) (cross l1.dir l2.dir)| ^ 2 := by
+    have hsq : (Gen.Line3.distanceToLine tmin sqrt l1 l2 * Lc) ^ 2 = |dot (sub l2.pos l1.pos) (cross l1.dir l2.dir)| ^ 2 := by
       rw [mul_pow, hD, hLc, sq_abs]
       have : dist2 (lineAt l1 s) (lineAt l2 t) = dot (sub (lineAt l1 s) (lineAt l2 t)) (sub (lineAt l1 s) (lineAt l2 t)) := rfl
       rw [this, hV, hVn]; ring
     exact (pow_left_inj₀ (mul_nonneg h0 hLc0) (abs_nonneg _) two_ne_zero).mp hsq
-  unfold Line3_distanceToLine_impl
   simp only [Gen.Line3.distanceToLine]
   len_intro hlen L hsq hnn
   have hcross : dot (cross l1.dir l2.dir) (cross l1.dir l2.dir) = L ^ 2 := by rw [hsq]; simp only [dot, cross]
@@ -350,41 +336,41 @@ theorem Line3_distanceToLine (tmin : α) (sqrt : α → α) (hlen : LenSpec (Gen
       unfold dist2
       rw [hV]; ring
 
-/-- what holds on BOTH the current and a repaired tree: for PERPENDICULAR unit directions (`|d1×d2| = 1`) the result is the
-distance between the lines.  (Full statement: `Line3_distanceToLine`; missing here: every non-perpendicular pair.) -/
-theorem Line3_distanceToLine_partial (tmin : α) (sqrt : α → α) (hlen : LenSpec (Gen.V3.length tmin sqrt)) (l1 l2 : Line3 α)
+/-- special case: perpendicular unit directions -/
+theorem Line3_distanceToLine_perpendicular (tmin : α) (sqrt : α → α) (hlen : LenSpec (Gen.V3.length tmin sqrt)) (l1 l2 : Line3 α)
     (hu1 : dot l1.dir l1.dir = 1) (hu2 : dot l2.dir l2.dir = 1) (hperp : dot l1.dir l2.dir = 0) :
-    0 ≤ Line3_distanceToLine_impl tmin sqrt l1 l2 ∧
-    (∀ s t, Line3_distanceToLine_impl tmin sqrt l1 l2 ^ 2 ≤ dist2 (lineAt l1 s) (lineAt l2 t)) ∧
-    (∃ s t, Line3_distanceToLine_impl tmin sqrt l1 l2 ^ 2 = dist2 (lineAt l1 s) (lineAt l2 t)) := by
-  first
-  | -- current tree: the code returns |(p2 − p1)·(d1×d2)|
-    (
-      have hden : cpDen l1 l2 ≠ 0 := by unfold cpDen; rw [hperp]; norm_num
-      obtain ⟨hp1, hp2⟩ := cp_perp l1 l2 hu1 hu2 hden
-      have hV := perp_both_sq _ l1.dir l2.dir hp1 hp2
-      have hn : dot (cross l1.dir l2.dir) (cross l1.dir l2.dir) = 1 := by rw [lagrange, hu1, hu2, hperp]; ring
-      have hDsq : ∀ x : α, (if 0 ≤ x then x else -x) ^ 2 = x ^ 2 := by
-        intro x; split_ifs <;> ring
-      have hVn : dot (sub (lineAt l1 (cpNum1 l1 l2 / cpDen l1 l2)) (lineAt l2 (cpNum2 l1 l2 / cpDen l1 l2))) (cross l1.dir l2.dir)
-          = -((l1.dir.y * l2.dir.z - l1.dir.z * l2.dir.y) * (l2.pos.x - l1.pos.x) + (l1.dir.z * l2.dir.x - l1.dir.x * l2.dir.z) * (l2.pos.y - l1.pos.y)
-              + (l1.dir.x * l2.dir.y - l1.dir.y * l2.dir.x) * (l2.pos.z - l1.pos.z)) := by
-        simp only [dot, sub, lineAt, cross]; ring
-      rw [hn, hVn, mul_one] at hV
-      have hD : Line3_distanceToLine_impl tmin sqrt l1 l2 ^ 2
-          = dist2 (lineAt l1 (cpNum1 l1 l2 / cpDen l1 l2)) (lineAt l2 (cpNum2 l1 l2 / cpDen l1 l2)) := by
-        unfold Line3_distanceToLine_impl dist2
-        simp only [Gen.Line3.distanceToLine]
-        rw [hDsq, hV]; ring
-      refine ⟨?_, fun s t => by rw [hD]; exact dist2_min_of_perp l1 l2 _ _ hp1 hp2 s t, ⟨_, _, hD⟩⟩
-      unfold Line3_distanceToLine_impl
-      simp only [Gen.Line3.distanceToLine]
-      split_ifs with h
-      · exact h
-      · linarith)
-  | -- repaired tree: a special case of the full theorem
-    (obtain ⟨h0, hmin, hex, _⟩ := Line3_distanceToLine tmin sqrt hlen l1 l2 hu1 hu2
-     exact ⟨h0, hmin, hex⟩)
+    Gen.Line3.distanceToLine tmin sqrt l1 l2 = |dot (sub l2.pos l1.pos) (cross l1.dir l2.dir)| := by
+  obtain ⟨_, _, _, hf⟩ := Line3_distanceToLine tmin sqrt hlen l1 l2 hu1 hu2
+  have hn : dot (cross l1.dir l2.dir) (cross l1.dir l2.dir) = 1 := by rw [lagrange, hu1, hu2, hperp]; ring
+  have hnz : cross l1.dir l2.dir ≠ zero := by
+    intro h0; rw [h0] at hn; simp only [dot, zero, mul_zero, add_zero] at hn; exact zero_ne_one hn
+  have := hf hnz 1 zero_le_one (by rw [hn]; ring)
+  rwa [mul_one] at this
+
+/-- the two inputs on which the old code was wrong (it returned 4/5 and 0): the lines `(0,0,0)+s(1,0,0)`,
+`(0,0,1)+t(3/5,4/5,0)` are at distance 1 and the parallel lines `(0,0,0)+s(1,0,0)`, `(0,2,0)+t(1,0,0)` at distance 2 -/
+theorem Line3_distanceToLine_witness_skew (tmin : α) (sqrt : α → α) (hlen : LenSpec (Gen.V3.length tmin sqrt)) :
+    Gen.Line3.distanceToLine tmin sqrt ⟨⟨0, 0, 0⟩, ⟨1, 0, 0⟩⟩ ⟨⟨0, 0, 1⟩, ⟨3 / 5, 4 / 5, 0⟩⟩ = 1 := by
+  obtain ⟨_, _, _, hf⟩ := Line3_distanceToLine tmin sqrt hlen ⟨⟨0, 0, 0⟩, ⟨1, 0, 0⟩⟩ ⟨⟨0, 0, 1⟩, ⟨3 / 5, 4 / 5, 0⟩⟩
+    (by simp only [dot]; norm_num) (by simp only [dot]; norm_num)
+  have hnz : cross (⟨1, 0, 0⟩ : V3 α) ⟨3 / 5, 4 / 5, 0⟩ ≠ zero := by
+    simp only [cross, zero, V3.mk.injEq]; norm_num
+  have h := hf hnz (4 / 5) (by norm_num) (by simp only [dot, cross]; norm_num)
+  simp only [dot, sub, cross] at h
+  norm_num at h
+  linarith
+
+theorem Line3_distanceToLine_witness_parallel (tmin : α) (sqrt : α → α) (hlen : LenSpec (Gen.V3.length tmin sqrt)) :
+    Gen.Line3.distanceToLine tmin sqrt ⟨⟨0, 0, 0⟩, ⟨1, 0, 0⟩⟩ ⟨⟨0, 2, 0⟩, ⟨1, 0, 0⟩⟩ = 2 := by
+  obtain ⟨h0, hmin, ⟨s, t, hex⟩, _⟩ := Line3_distanceToLine tmin sqrt hlen ⟨⟨0, 0, 0⟩, ⟨1, 0, 0⟩⟩ ⟨⟨0, 2, 0⟩, ⟨1, 0, 0⟩⟩
+    (by simp only [dot]; norm_num) (by simp only [dot]; norm_num)
+  have h1 := hmin 0 0
+  simp only [dist2, dot, sub, lineAt] at h1 hex
+  have h4 : Gen.Line3.distanceToLine tmin sqrt ⟨⟨0, 0, 0⟩, ⟨1, 0, 0⟩⟩ ⟨⟨0, 2, 0⟩, ⟨1, 0, 0⟩⟩ ^ 2 = 4 := by
+    apply le_antisymm
+    · nlinarith
+    · rw [hex]; nlinarith [sq_nonneg (s - t)]
+  nlinarith [sq_nonneg (Gen.Line3.distanceToLine tmin sqrt (⟨⟨0, 0, 0⟩, ⟨1, 0, 0⟩⟩ : Line3 α) ⟨⟨0, 2, 0⟩, ⟨1, 0, 0⟩⟩ - 2)]
 
 /-! ## Plane3 -/
 
@@ -1417,7 +1403,7 @@ example : SqrtSpec Real.sqrt := realSqrtSpec
 /-- `Line3_set`: two distinct points -/
 example : (⟨0, 0, 0⟩ : V3 ℝ) ≠ ⟨1, 2, 2⟩ := by intro h; simp only [V3.mk.injEq] at h; norm_num at h
 /-- unit directions (`hu`, `hu1`, `hu2`), not parallel (`Line3_closestPointToLine`, `LineAlgo_closestPoints`), and a
-perpendicular pair (`Line3_distanceToLine_partial`) -/
+perpendicular pair (`Line3_distanceToLine_perpendicular`) -/
 example : dot (⟨3 / 5, 4 / 5, 0⟩ : V3 ℚ) ⟨3 / 5, 4 / 5, 0⟩ = 1 ∧ dot (⟨1, 0, 0⟩ : V3 ℚ) ⟨1, 0, 0⟩ = 1 ∧
     dot (⟨1, 0, 0⟩ : V3 ℚ) ⟨3 / 5, 4 / 5, 0⟩ ^ 2 ≠ 1 ∧ dot (⟨1, 0, 0⟩ : V3 ℚ) ⟨0, 0, 1⟩ = 0 := by
   simp only [dot]; norm_num
